@@ -29,8 +29,9 @@ LABEL = ('partial: the server-side "no stream stays open" theorem is proved excl
 TRUSTED = ['modelled, not verified: hyper-h2 4.3.0 stream life cycle and open_outbound/open_inbound/'
            'TooManyStreamsError accounting as abstracted in Model/Registry.v (h2s record), asyncio.Event '
            'wake rule, asyncio task cancellation; the wire is per-stream FIFO (a superset of TCP order)',
-           'harness/c10_util.py: logging wrappers placed on instance attributes of the h2 connections, '
-           'processor.register and handler.accept (they only record calls and re-raise)']
+           'harness/c10_util.py: logging wrappers placed on instance attributes of the h2 connections (found by '
+           'role), processor.register and handler.accept (they only record calls and re-raise); connection set-up '
+           'through loop.create_server / loop.create_connection']
 ASSUMPTIONS = ['one live connection (no connection loss, GOAWAY or Channel.close during the history)',
                'pause_writing/resume_writing are modelled for what they change (reset_nowait does not write while paused); '
                'that every other op first awaits write_ready only delays it',
@@ -448,7 +449,7 @@ def run(ctx):
                 'MAX_CONCURRENT_STREAMS in {1,2,5} announced before the calls and at PRNG instants (raised and '
                 'lowered), client task cancellation, Server.close-style handler cancellation (link), back-pressure '
                 'windows on both transports, SETTINGS frames combining several settings; plus bulk scenarios of '
-                '25..45 mostly client-ended calls (aggregate bookkeeping: Handler._tasks/_cancelled, wrapper task sets); PRNG re-cut '
+                '25..45 mostly client-ended calls (aggregate bookkeeping: task containers of the Handler and of the per-call wrappers, located by role); PRNG re-cut '
                 'of the byte stream (link).  distinct = distinct (set-up, multiset of (cardinality, client '
                 'program, peer program, deadline?), announced limits, waiters occurred)')
     cases = list(ctx.corpus())
